@@ -404,6 +404,14 @@ def c12_jobs(tier):
         for st in ['uint8_t', 'std::size_t'] + ([] if tier == 'quick' else ['uint16_t', 'uint32_t']):
             for (n, cap) in ([(2, 4)] if tier == 'quick' else [(2, 4), (2, 2), (0, 2)]):
                 js.append(ops_job(op, 'int', n, cap, bigcnt=True, sizet=st, witness=['length_error exit']))
+    # range lengths beyond what the size type / max_size() allow (counting ranges: a correct implementation throws before touching an element)
+    from .jobs import rng_job
+    for op in ['ctor_range', 'assign_range', 'insert_range', 'append_range']:
+        for itk in ((2,) if tier == 'quick' else (1, 2)):
+            js.append(rng_job(op, 'int', 2, 2 if op == 'ctor_range' else 4, itk=2, sizet='uint8_t', extra_defs={'VF_BIGLEN': 1}, tag='-biglen', witness=['length_error exit']))
+            js.append(rng_job(op, 'int', 2, 2 if op == 'ctor_range' else 4, itk=2, sizet='uint8_t', extra_defs={'VF_MIDLEN': 1}, tag='-midlen', witness=['length_error exit']))
+    for op in ['ctor_range', 'ctor_count', 'ctor_count_val', 'ctor_gen', 'ctor_il', 'assign_range', 'insert_range', 'append_range']:
+        js.append(rng_job(op, 'int', 2, 2 if (op.startswith('ctor') or op == 'assign_range') else 4, itk=1, maxsz=2 if op.startswith('ctor') or op == 'assign_range' else 5, witness=['normal return', 'length_error exit']))
     # narrow size_type allocators: same operations, size_type = uint8_t / uint16_t (internal size type uint_fast8_t is 8 bits here)
     for op in (['insert_n', 'push_back_c', 'resize_v', 'assign_n', 'reserve', 'append_range'] if tier == 'quick' else grow):
         for st in ['uint8_t', 'uint16_t'] + ([] if tier == 'quick' else ['uint32_t']):
